@@ -46,4 +46,51 @@ Proof.
   unfold cf_predict_exp. rewrite Ek1. cbn [is_single hd]. unfold aget_d. rewrite He, Hh, Ht. reflexivity.
 Qed.
 
+(* Thompson Sampling leaves (documented behaviour: the leaf policy has no binarizer): one Beta draw whose parameters are
+   1 + (sum of the leaf's rewards) and 1 + (size of the leaf - that sum) *)
+Theorem leaf_policy_thompson (a : A) (rewards : list R) :
+  let l1 := cf_fit N aeqb (cf_init N KThompson (zero N) None [a]) (repeat a (length rewards)) rewards in
+  ts_arm_ok N aeqb l1 [rewards] a.
+Proof.
+  intros l1.
+  assert (Hk0 : keys_ok (cf_init N KThompson (zero N) None [a])) by (apply keys_ok_init; repeat constructor; intros []).
+  assert (H0 : forall a', In a' (c_arms (cf_init N KThompson (zero N) None [a])) -> ts_arm_ok N aeqb (cf_init N KThompson (zero N) None [a]) [] a').
+  { intros a' [<-|[]]. unfold ts_arm_ok, cf_init; simpl. rewrite (keqb_refl aeqb aeqb_spec). eexists; split; [reflexivity|]. simpl. auto. }
+  pose proof (thompson_params N aeqb aeqb_spec (cf_init N KThompson (zero N) None [a]) [OFit (repeat a (length rewards)) rewards]
+                eq_refl eq_refl Hk0 H0 I I) as H.
+  cbv zeta in H. simpl cf_run_rev in H. fold l1 in H. destruct H as (_ & _ & _ & Harm).
+  assert (Ha : In a (c_arms l1)) by (unfold l1; rewrite (proj2 (proj2 (proj2 (proj2 (cf_fit_cfg N aeqb _ _ _))))); left; reflexivity).
+  specialize (Harm a Ha). simpl in Harm. rewrite arm_rewards_repeat in Harm. exact Harm.
+Qed.
+
+Theorem leaf_expectation_thompson (s : @tree R A) g a (rewards : list R) :
+  c_kind (t_lp s) = KThompson -> t_kf_rebin s = false ->
+  leaf_expectation N aeqb RG s g a rewards =
+  (let '(v, g1) := draw_r RG g (RqBeta (spec_succ N [rewards]) (spec_fail N [rewards]) 1) in (nth 0 v (zero N), g1)).
+Proof.
+  intros Ek Hr. unfold leaf_expectation. rewrite Ek, Hr.
+  destruct (leaf_policy_thompson a rewards) as (st & Hs & H1 & H2).
+  replace (c_hp (t_lp s)) with (c_hp (t_lp s)) by reflexivity.
+  set (l1 := cf_fit N aeqb (cf_init N KThompson (c_hp (t_lp s)) None [a]) (repeat a (length rewards)) rewards).
+  (* the hyper-parameter of the template is irrelevant for Thompson Sampling; re-do the statistics for this l1 *)
+  assert (Hl1 : exists st', aget aeqb (c_stats l1) a = Some st' /\ s_succ st' = spec_succ N [rewards] /\ s_fail st' = spec_fail N [rewards]).
+  { assert (Hk0 : keys_ok (cf_init N KThompson (c_hp (t_lp s)) None [a])) by (apply keys_ok_init; repeat constructor; intros []).
+    assert (H0 : forall a', In a' (c_arms (cf_init N KThompson (c_hp (t_lp s)) None [a])) -> ts_arm_ok N aeqb (cf_init N KThompson (c_hp (t_lp s)) None [a]) [] a').
+    { intros a' [<-|[]]. unfold ts_arm_ok, cf_init; simpl. rewrite (keqb_refl aeqb aeqb_spec). eexists; split; [reflexivity|]. simpl. auto. }
+    pose proof (thompson_params N aeqb aeqb_spec (cf_init N KThompson (c_hp (t_lp s)) None [a]) [OFit (repeat a (length rewards)) rewards]
+                  eq_refl eq_refl Hk0 H0 I I) as H.
+    cbv zeta in H. simpl cf_run_rev in H. fold l1 in H. destruct H as (_ & _ & _ & Harm).
+    assert (Ha : In a (c_arms l1)) by (unfold l1; rewrite (proj2 (proj2 (proj2 (proj2 (cf_fit_cfg N aeqb _ _ _))))); left; reflexivity).
+    specialize (Harm a Ha). simpl in Harm. rewrite arm_rewards_repeat in Harm. exact Harm. }
+  destruct Hl1 as (st' & Hs' & S1 & S2).
+  assert (Ek1 : c_kind l1 = KThompson) by (unfold l1; rewrite (proj1 (cf_fit_cfg N aeqb _ _ _)); reflexivity).
+  assert (Hkeys : akeys (c_exp l1) = [a]).
+  { assert (Hk1 : keys_ok l1) by (unfold l1; apply (cf_fit_keys_ok N aeqb aeqb_spec); apply keys_ok_init; repeat constructor; intros []).
+    destruct Hk1 as (_ & He & _). rewrite He. unfold l1. rewrite (proj2 (proj2 (proj2 (proj2 (cf_fit_cfg N aeqb _ _ _))))). reflexivity. }
+  assert (Harms : c_arms l1 = [a]) by (unfold l1; rewrite (proj2 (proj2 (proj2 (proj2 (cf_fit_cfg N aeqb _ _ _))))); reflexivity).
+  unfold cf_predict_exp. rewrite Ek1, Hkeys, Harms. cbn [msize draw_betas]. unfold aget_d at 1 2. rewrite Hs', S1, S2.
+  destruct (draw_r RG g (RqBeta (spec_succ N [rewards]) (spec_fail N [rewards]) 1)) as [v g1].
+  cbn [seq map hd]. unfold aget_d. cbn [aget]. rewrite (keqb_refl aeqb aeqb_spec). reflexivity.
+Qed.
+
 End TreeLeaf.
